@@ -38,6 +38,13 @@ checks = {
  "C05": ("B", "exhaustive enumeration of (tree, rebuilt copy) and (tree, every single-point mutant) pairs, both directions",
          "Every tree of the bounded family - 15 leaf descriptions (primitives, *int, **string, []int, [3]int, []string, map, struct, *struct, embedded struct, struct with unexported field), Conditions over them, nested stacks with and without capacity, an alias - is built twice independently and must compare equal both ways; every single-point mutation (each leaf, each slice/array/map position, renamed key, keyword, operator, kind, capacity, sibling swap, one element more/fewer) must be rejected both ways; a change confined to an unexported struct field must be skipped; no comparison may panic.",
          "Trusted: the mutation generator; documented equivalences (slice vs array of equal content, pointer flattening) are not counted as differences.", "§3 C05"),
+
+ "C04": ("B", "exhaustive enumeration of trees with a reference unmarshaller and a walk of the reconstruction, on the real code",
+         "Every tree of the bounded family (all five kinds incl. empty stacks; string leaves incl. label-like ones and the empty string, int, float, bool, nil; Conditions whose expression is a primitive, a Stack or a Condition; built-in and user operators; depth up to 3): Unmarshal is compared with a reference unmarshaller written from the statement; Marshal of that result on a zero Stack (both call forms) is walked against the original (kinds, order, leaves, keyword/operator/expression); the second Unmarshal must be deeply equal (labels case-insensitive) and IsEqual must succeed both ways when no capacity/fold is involved.",
+         "Trusted: the reference unmarshaller/walker; trees up to the stated bound.", "§3 C04"),
+ "C16": ("B", "exhaustive enumeration of []any inputs x receivers x call forms with a no-panic / error-or-usable oracle",
+         "Every input of the bounded family (labels in any case, junk/empty strings, numbers, nil, typed nils, valid/zero/user/empty operators and non-operators in the operator slot, ready-made and zero Stacks/Conditions, empty and nested envelopes, CONDITION rows of 1..6 fields, depth <=3, width <=4/5) x receiver {zero, initialised, full, read-only} x {Marshal(in...), Marshal(in)}: no panic; an error, or an initialised receiver on which String/Unmarshal/IsEqual/Valid/Len/Kind return; recognised labels honoured case-insensitively; unknown leading string gives BASIC with all entries; an initialised receiver grows by exactly one Stack/Condition.",
+         "Trusted: the effective-input rule (single-element envelopes are stripped); user operators are total.", "§3 C16"),
 }
 not_built = {f"C{i:02d}" for i in range(1,21)} - set(checks)
 m = {
